@@ -12,7 +12,7 @@ ANCHORS = ["pyoma2.functions.plscf:pLSCF", "pyoma2.functions.plscf:rmfd2ac", "py
 REQUIRED_MONITORS = ["history: other sign then again", "history: poles extracted twice", "coefficients@pLSCF", "poles-at-order-n@pLSCF_poles", "roots@rmfd2ac(every call)", "columns@pLSCF_poles(every call)",
                      "roots@rmfd2ac(inside pLSCF.run)", "columns@pLSCF_poles(inside pLSCF.run)"]
 ALL_STATES = ["sgn=-1", "sgn=+1", "ordmax=n", "ordmax>n", "some roots unstable", "all roots stable", "Nref<Nch", "Nref>Nch", "Nref=Nch", "n=1", "n>=6"]
-REQUIRED_STATES = ["sgn=-1", "sgn=+1", "ordmax=n", "ordmax>n", "some roots unstable", "Nref<Nch", "Nref>Nch", "n=1", "spectrum magnitude < 1e-5", "all roots real, some negative"]
+REQUIRED_STATES = ["sgn=-1", "sgn=+1", "ordmax=n", "ordmax>n", "some roots unstable", "Nref<Nch", "Nref>Nch", "n=1", "spectrum magnitude < 1e-5", "all roots real, some negative", "a root with damping ratio below 1e-5"]
 RULE = ("random real polynomial matrices A (Nch x Nch) and B (Nref x Nch) of order n in 1..8 (leading/trailing coefficients diagonally dominated), "
         "2..5 channels, 1..5 reference rows, Nf >= 4(n+1) lines, dt over three decades, both basis signs, ordmax in {n,n+1,n+2}; Sy = B A^-1 on the "
         "library's grid; oracle: Ad[n-1] equals the normalised true coefficients, column n-1 of the pole tables equals the stable roots of det A "
@@ -146,8 +146,24 @@ def check_poles_call(ctx, tag, Ad, Bn, dt, methodSy, nxseg, out):
             ctx.check(np.max(nrm) <= 1e-12, "poles:normalisation", lambda: f"{tag}: mode shapes not normalised to a unit largest component ({nrm})")
 
 
+def exact_unit_circle(ctx):
+    """exactly representable coefficients with det A(z) = z^2 + 1: the undamped pair at fs/4 has real part exactly 0 - non-positive, kept"""
+    from pyoma2.functions import plscf
+    R, I2 = np.array([[0.0, -1.0], [1.0, 0.0]]), np.eye(2)
+    for A in (np.array([R, I2]), np.array([I2, R])):
+        for dt in (0.01, 0.5):
+            F, X, P, L = plscf.pLSCF_poles([A], [np.ones((2, 1, 2))], dt, "per", 256)
+            ctx.ev("unit-circle roots@pLSCF_poles")
+            col = L[:, 0][~np.isnan(L[:, 0])]
+            ok = len(col) == 2 and np.allclose(np.sort(col.imag), [-np.pi / (2 * dt), np.pi / (2 * dt)], rtol=1e-12) and np.all(np.abs(col.real) <= 1e-9 / dt)
+            ctx.check(ok, "poles:undamped_pair_dropped", lambda: f"det A(z) = z^2 + 1 (dt={dt}): the two poles with real part 0 must be reported, got {col}")
+
+
 def run_rational(ctx, rng):
     from pyoma2.functions import plscf
+
+    if rng.random() < 0.1:
+        exact_unit_circle(ctx)
 
     n = int(rng.integers(1, 9))
     Nch = int(rng.integers(2, 6))
@@ -167,6 +183,19 @@ def run_rational(ctx, rng):
         alpha = np.array([T @ np.diag([co[i][j] for i in range(Nch)]) @ Ti for j in range(n + 1)])
         if (R < 0).any():
             ctx.state("all roots real, some negative")
+    if rng.random() < 0.15:
+        # second-order sections with prescribed modal parameters, some of them very lightly damped (xi down to 1e-8): A = T diag(s_i) T^-1
+        n = 2
+        T = rng.standard_normal((Nch, Nch)) + 2 * np.eye(Nch)
+        Ti = np.linalg.inv(T)
+        f_ = np.sort(rng.uniform(0.05, 0.45, Nch)) / dt
+        x_ = 10 ** rng.uniform(-8, -1.5, Nch)
+        lam_ = 2 * np.pi * f_ * (-x_ + 1j * np.sqrt(1 - x_**2))
+        z_ = np.exp(lam_ * dt)
+        co = [np.array([abs(z) ** 2, -2 * z.real, 1.0]) for z in z_]
+        alpha = np.array([T @ np.diag([co[i][j] for i in range(Nch)]) @ Ti for j in range(3)])
+        if np.min(x_) < 1e-5:
+            ctx.state("a root with damping ratio below 1e-5")
     beta = rng.standard_normal((n + 1, Nref, Nch))
     if rng.random() < 0.4:
         mag = float(10 ** rng.uniform(-9, 3))
